@@ -161,10 +161,16 @@ def big_matrices(draw):
         long_side = draw(st.integers(110, 260))
         short_side = draw(st.integers(1, 6))
         n_major, n_minor = (long_side, short_side) if draw(st.booleans()) else (short_side, long_side)
+    elif shape_mode == 3 and draw(st.integers(0, 3)) == 0:
+        # more stored entries than a two-byte counter holds (65 535)
+        n_major = draw(st.integers(262, 300))
+        n_minor = draw(st.integers(262, 300))
+        fam = 'random'
     m = {'shape': [n_major, n_minor], 'seed': draw(st.integers(0, 2**31 - 1)), 'family': fam,
          'vdtype': draw(st.sampled_from(VALUE_DTYPES))}
     if fam == 'random':
-        m['density'] = draw(st.sampled_from([0.03, 0.15, 0.4, 0.6, 0.8, 0.95] if shape_mode not in (1, 2) else [0.6, 0.9, 0.97]))
+        m['density'] = draw(st.sampled_from([0.03, 0.15, 0.4, 0.6, 0.8, 0.95] if shape_mode not in (1, 2) and n_major < 262
+                                            else [0.97] if n_major >= 262 else [0.6, 0.9, 0.97]))
         m['empty_major'] = draw(st.lists(st.integers(0, n_major - 1), max_size=3, unique=True))
         m['empty_minor'] = draw(st.lists(st.integers(0, n_minor - 1), max_size=3, unique=True))
     if draw(st.integers(0, 5)) == 0:
